@@ -3,7 +3,8 @@
 //! Bounded exhaustive exploration of the REAL `dukenest::{nest_jar, apply_nests_to_mappings,
 //! undo_nests_to_mappings, remap_nests}` and `Nests::read`: every nests table of a small explicit
 //! space (see `c14/space.rs`) is run against a fixed jar of four classes that refer to each other and
-//! to two absent classes at many positions, and against mapping sets over the same classes.
+//! to two absent classes at many positions, and against mapping sets over the same classes — in four
+//! name universes (plain, multi-byte, two odd-but-legal ones).
 //!
 //! Oracles, written from the statement (and JVMS 4.7.6/4.7.7 for what the attributes say):
 //!  (a) `nest_jar` renames exactly the listed classes that are present and satisfy the rule of their
@@ -17,6 +18,30 @@
 //!  (d) `remap_nests` keeps every nest, with class, enclosing class, enclosing method and inner name
 //!      in the target namespace.
 //! Where the statement is silent both outcomes are accepted (see `jar::alternatives`); panics never.
+//!
+//! Spaces (each complete within its bounds; `spaces` and `bounds` in the evidence carry the measured counts):
+//!  S1  tables of 0..3 (thorough: 4) entries over the base universe: nested class (6) x enclosing class (5) x kind
+//!      (`space::KINDS_FULL`, 37 kinds: type x enclosing method none/declared/overload/other name/declared by the nested
+//!      class only x inner name derived/custom/tail of an already-nested name/number/0/00/leading zero/two digits/
+//!      i32::MAX/local prefix of one and two digits/one name for all classes), canonical and reversed line order;
+//!      jar + mappings + agreement; every table goes through the text form (`Nests::read`) where it can say it;
+//!  S1b variant jars (classes that already carry EnclosingMethod / InnerClasses; further reference positions);
+//!  S1c further NAME UNIVERSES (`space::universes`), same roles, other names: `multibyte` (2/3/4-byte characters first /
+//!      last in simple names, in packages, next to `__`, behind the digit prefix of local names; a deep package),
+//!      `odd-a` (`p/A$B` nested as `B` in `p/A`: the name stays, the attributes are still due; `(` in a name; `LF` in the
+//!      default package), `odd-b` (`p/A` and `r/A`: one simple name in two packages, each with a method only it
+//!      declares; classes in the default package, in the jar and missing; package `Lp`; a name ending in `$`):
+//!      tables of 1 (all kinds; base + 4 variant jars), tables of 2 (6 kinds), styled mappings, zip path (multibyte);
+//!      their jars also hold resources whose names have a multi-byte character at every distance 1..8 from the end;
+//!  S1d CHAINS of 2..4 (thorough: 5) entries = depth 3..5 (6) over every injective class sequence, in EVERY order of
+//!      the lines; two/three nests that share one inner name in different enclosing classes; every bit of the
+//!      InnerClasses flag mask; the spellings of the TEXT FORM (flags decimal / 0x / 0b / 0x upper case per line, LF /
+//!      CRLF, last line terminated or not: LF forms must read to the table written, CRLF and upper-case hex to the
+//!      same table or a refusal);
+//!  S2  styled mappings: target names plain / calamus / pre-nested / pre-nested under another prefix / IDENTITY (the
+//!      row renames nothing, its methods may still be renamed) / DEFAULT PACKAGE (`Bt`, `C_22`), x enclosing-method row
+//!      renamed / absent / same name: remap_nests, apply, undo;
+//!  S3  information only: rows without target name, remap = false, cyclic tables (child process).
 
 #[path = "c14/space.rs"]
 mod space;
@@ -82,34 +107,41 @@ enum Style {
 	PreNested,
 	/// `q/Zz__Bt`: a nested-looking name whose prefix is not the enclosing class's target name
 	PreNestedOther,
+	/// the source name: a row that renames nothing
+	Identity,
+	/// `Bt`: a target name in the default package
+	NoPkg,
+	/// `C_12`: a calamus-style target name in the default package
+	CalamusNoPkg,
 }
-const STYLES: [Style; 4] = [Style::Plain, Style::Calamus, Style::PreNested, Style::PreNestedOther];
-
-fn idx_of(class: &str) -> usize {
-	CLS.iter().position(|c| *c == class).unwrap_or_else(|| fatal(&format!("class {class:?} is not in the universe")))
-}
+static STYLES: [Style; 7] = [Style::Plain, Style::Calamus, Style::PreNested, Style::PreNestedOther, Style::Identity, Style::NoPkg, Style::CalamusNoPkg];
+/// the styles of the first sessions (the two-entry styled sweep of the quick tier stays on these)
+const STYLES_OLD: usize = 4;
 
 /// target names of the six classes for one choice of styles (class F has no row: its name stays)
-fn targets(t: &[Entry], styles: &[Style; 6]) -> [String; 6] {
-	fn one(t: &[Entry], styles: &[Style; 6], i: usize, depth: usize) -> String {
+fn targets(u: &Uni, t: &[Entry], styles: &[Style; 6]) -> [String; 6] {
+	fn one(u: &Uni, t: &[Entry], styles: &[Style; 6], i: usize, depth: usize) -> String {
 		if i == 5 {
-			return CLS[5].to_owned();
+			return u.cls[5].to_owned();
 		}
 		let s = LETTER[i];
 		match styles[i] {
 			Style::Plain => format!("q/{s}t"),
 			Style::Calamus => format!("q/C_1{}", i + 1),
 			Style::PreNestedOther => format!("q/Zz__{s}t"),
-			Style::PreNested => match t.iter().find(|e| e.class == CLS[i]) {
+			Style::Identity => u.cls[i].to_owned(),
+			Style::NoPkg => format!("{s}t"),
+			Style::CalamusNoPkg => format!("C_2{}", i + 1),
+			Style::PreNested => match t.iter().find(|e| e.class == u.cls[i]) {
 				Some(e) if depth < 8 => {
 					let leaf = if e.inner.chars().all(|c| c.is_ascii_digit()) { e.inner.clone() } else { format!("{s}t") };
-					format!("{}__{leaf}", one(t, styles, idx_of(&e.encl), depth + 1))
+					format!("{}__{leaf}", one(u, t, styles, u.idx_of(&e.encl), depth + 1))
 				},
 				_ => format!("q/{s}t"),
 			},
 		}
 	}
-	std::array::from_fn(|i| one(t, styles, i, 0))
+	std::array::from_fn(|i| one(u, t, styles, i, 0))
 }
 
 #[derive(Clone, Copy, Debug, PartialEq, Eq, Hash)]
@@ -127,34 +159,42 @@ fn row2(a: &str, b: Option<&str>) -> Vec<Option<String>> {
 }
 
 /// rows for A..E (F is not mapped), each with two fields and two methods whose descriptors mention other classes
-fn mapping_set(tg: &[String; 6], no_target: Option<usize>, method_row: MethodRow) -> MSet {
+fn mapping_set(u: &Uni, tg: &[String; 6], no_target: Option<usize>, method_row: MethodRow) -> MSet {
+	let cls = &u.cls;
+	let (m_present, m_absent) = ((u.m_present.0.as_str(), u.m_present.1.as_str()), (u.m_absent.0.as_str(), u.m_absent.1.as_str()));
 	let mut set = MSet::new(&["calamus", "named"]);
 	for i in 0..5 {
 		let s = LETTER[i];
-		let mut c = MClass { names: row2(CLS[i], if no_target == Some(i) { None } else { Some(&tg[i]) }), doc: if i == 1 { Some("comment on B, mentions p/B and p/A$B".into()) } else { None }, ..Default::default() };
-		c.fields.insert(("f".into(), "Lp/B;".into()), MField { names: row2("f", Some(&format!("f{s}T"))), doc: None });
-		c.fields.insert(("g".into(), format!("[[L{};", CLS[(i + 4) % 6])), MField { names: row2("g", Some("gT")), doc: Some("field comment".into()) });
+		let mut c = MClass { names: row2(cls[i], if no_target == Some(i) { None } else { Some(&tg[i]) }), doc: if i == 1 { Some("comment on B, mentions p/B and p/A$B".into()) } else { None }, ..Default::default() };
+		c.fields.insert(("f".into(), format!("L{};", cls[1])), MField { names: row2("f", Some(&format!("f{s}T"))), doc: None });
+		c.fields.insert(("g".into(), format!("[[L{};", cls[(i + 4) % 6])), MField { names: row2("g", Some("gT")), doc: Some("field comment".into()) });
 		let mut params = BTreeMap::new();
 		params.insert(1usize, MParam { names: row2("a", Some("arg")), doc: None });
 		match method_row {
 			MethodRow::Renamed => {
-				c.methods.insert((M_PRESENT.0.into(), M_PRESENT.1.into()), MMethod { names: row2(M_PRESENT.0, Some(&format!("m{s}T"))), doc: Some("method comment".into()), params });
-				c.methods.insert((M_ABSENT.0.into(), M_ABSENT.1.into()), MMethod { names: row2(M_ABSENT.0, Some("mAbsT")), doc: None, params: BTreeMap::new() });
+				c.methods.insert((m_present.0.into(), m_present.1.into()), MMethod { names: row2(m_present.0, Some(&format!("m{s}T"))), doc: Some("method comment".into()), params });
+				c.methods.insert((m_absent.0.into(), m_absent.1.into()), MMethod { names: row2(m_absent.0, Some("mAbsT")), doc: None, params: BTreeMap::new() });
 			},
 			MethodRow::SameName => {
-				c.methods.insert((M_PRESENT.0.into(), M_PRESENT.1.into()), MMethod { names: row2(M_PRESENT.0, Some(M_PRESENT.0)), doc: None, params });
+				c.methods.insert((m_present.0.into(), m_present.1.into()), MMethod { names: row2(m_present.0, Some(m_present.0)), doc: None, params });
 			},
 			MethodRow::NoRow => {},
 		}
-		c.methods.insert(("k".into(), format!("(L{};L{};)L{};", CLS[3], CLS[5], CLS[0])), MMethod { names: row2("k", Some("kT")), doc: None, params: BTreeMap::new() });
+		c.methods.insert(("k".into(), format!("(L{};L{};)L{};", cls[3], cls[5], cls[0])), MMethod { names: row2("k", Some("kT")), doc: None, params: BTreeMap::new() });
 		if method_row != MethodRow::NoRow {
 			// the method only this class declares: a row in the class that declares it, in no other
 			let only = only_method(i);
 			c.methods.insert(only.clone(), MMethod { names: row2(&only.0, Some(&format!("{}T", only.0))), doc: None, params: BTreeMap::new() });
 		}
-		set.classes.insert(CLS[i].to_owned(), c);
+		set.classes.insert(cls[i].to_owned(), c);
 	}
 	set
+}
+
+/// the mapping set with plain target names of a universe, as model and as the real type
+fn plain_mappings(u: &Uni) -> (MSet, Maps) {
+	let plain = mapping_set(u, &targets(u, &[], &[Style::Plain; 6]), None, MethodRow::Renamed);
+	(plain.clone(), to_quill(&plain))
 }
 
 fn to_quill(set: &MSet) -> Maps {
@@ -279,7 +319,8 @@ fn remap_want(set: &MSet, e: &Entry) -> RemapWant {
 	RemapWant { class, encl: vec![tg(&e.encl)], method, inner, shape }
 }
 
-fn check_remap_nests(ctx: &Ctx, st: &mut Stats, set: &MSet, t: &[Entry], replay: &dyn Fn() -> String) {
+/// Returns whether the real result matched the reference in everything.
+fn check_remap_nests(ctx: &Ctx, st: &mut Stats, set: &MSet, t: &[Entry], replay: &dyn Fn() -> String) -> bool {
 	st.eval();
 	let q = to_quill(set);
 	let nests: Nests<Src> = to_real(t);
@@ -287,25 +328,26 @@ fn check_remap_nests(ctx: &Ctx, st: &mut Stats, set: &MSet, t: &[Entry], replay:
 		Err(p) => {
 			st.outcome("remap_nests:panic");
 			ctx.diff(&format!("remap_nests:panic@{}", p.file()), &format!("remap_nests panicked at {}: {}", p.site, p.msg), replay);
-			return;
+			return false;
 		},
 		Ok(Err(e)) => {
 			st.outcome("remap_nests:err");
 			ctx.diff("remap_nests:refused", &format!("remap_nests failed on a table and mappings of the stated space: {e:#}"), replay);
-			return;
+			return false;
 		},
 		Ok(Ok(n)) => from_real(&n),
 	};
 	let wants: Vec<RemapWant> = t.iter().map(|e| remap_want(set, e)).collect();
 	if wants.iter().map(|w| &w.class).collect::<BTreeSet<_>>().len() != wants.len() {
 		st.outcome("remap_nests:two-nests-with-one-target-name (outside the space)");
-		return;
+		return false;
 	}
 	st.outcome("remap_nests:ok");
+	let mut clean = true;
 	if out.len() != t.len() {
+		clean = false;
 		ctx.diff("remap_nests:nest-count", &format!("{} nests in, {} out: {:?}", t.len(), out.len(), out.iter().map(|o| &o.0).collect::<Vec<_>>()), replay);
 	}
-	let mut clean = true;
 	for (e, w) in t.iter().zip(&wants) {
 		let Some((key, got)) = out.iter().find(|(k, _)| k == &w.class) else {
 			clean = false;
@@ -353,6 +395,7 @@ fn check_remap_nests(ctx: &Ctx, st: &mut Stats, set: &MSet, t: &[Entry], replay:
 		st.distinct.add(&("remap", &out));
 		st.sample("remap_nests", || json!({"kind": "remap_nests", "table": table_text(t), "mappings": mapmodel::tiny::print(set), "result": out.iter().map(|(k, e)| format!("{k}: encl={} method={:?} inner={}", e.encl, e.method, e.inner)).collect::<Vec<_>>()}));
 	}
+	clean
 }
 
 // ---------------------------------------------------------------------------------------------
@@ -443,7 +486,7 @@ fn check_mappings(ctx: &Ctx, st: &mut Stats, set: &MSet, prebuilt: Option<&Maps>
 // the jar
 
 fn run_nest_jar(fx: &Fixture, nests: Nests<Src>, remap: bool) -> Result<Result<Out, String>, vcore::Panic> {
-	vcore::guard(|| dukenest::nest_jar(remap, &fx.jar, nests).map(|j| jar::read_out(&j)).map_err(|e| format!("{e:#}")))
+	vcore::guard(|| dukenest::nest_jar(remap, &fx.jar, nests).map(|j| jar::read_out(fx.uni, &j)).map_err(|e| format!("{e:#}")))
 }
 
 /// the table as the real type: through the text form whenever the text form can say it
@@ -548,7 +591,7 @@ fn check_jar(ctx: &Ctx, st: &mut Stats, fx: &Fixture, t: &[Entry], replay: &dyn 
 		for (e, a) in t.iter().zip(&alt.applied) {
 			if fx.present(&e.class) {
 				if let Some(m) = &e.method {
-					let which = if (m.0.as_str(), m.1.as_str()) == M_OTHER_NAME { Some("declared-nowhere-with-the-descriptor-of-a-declared-one") } else if m.0.starts_with("only") { Some("declared-by-the-nested-class-only") } else { None };
+					let which = if *m == fx.uni.m_other_name { Some("declared-nowhere-with-the-descriptor-of-a-declared-one") } else if m.0.starts_with("only") { Some("declared-by-the-nested-class-only") } else { None };
 					if let Some(which) = which {
 						st.outcome(&format!("nest_jar:method-{which}:{}:{}", e.ty.name(), if *a { "applied" } else { "rejected" }));
 					}
@@ -560,10 +603,22 @@ fn check_jar(ctx: &Ctx, st: &mut Stats, fx: &Fixture, t: &[Entry], replay: &dyn 
 			if *a {
 				st.outcome(&format!("nest_jar:applied:{}", e.ty.name()));
 				verdict.renamed += 1;
+				if alt.new_name(&e.class) == e.class {
+					st.outcome("nest_jar:applied-to-a-class-that-already-has-the-nested-name");
+				}
+				if e.class != e.encl && simple_of(&e.class) == simple_of(&e.encl) {
+					st.outcome("nest_jar:applied:enclosing-class-with-the-simple-name-of-the-nested-class");
+				}
+				if t.iter().zip(&alt.applied).any(|(o, oa)| *oa && o.class != e.class && o.inner == e.inner) {
+					st.outcome("nest_jar:applied:inner-name-shared-with-another-applied-nest");
+				}
 			} else if !fx.present(&e.class) {
 				st.outcome("nest_jar:skipped:class-not-in-jar");
 			} else if let Some(why) = jar::rule_violation(fx, e) {
 				st.outcome(&format!("nest_jar:rejected:{why}"));
+				if e.class != e.encl && simple_of(&e.class) == simple_of(&e.encl) && e.method.as_ref().is_some_and(|m| m.0.starts_with("only")) {
+					st.outcome("nest_jar:rejected:local-whose-method-only-the-namesake-of-the-enclosing-class-declares");
+				}
 			}
 		}
 		let deepest = alt.names.values().map(|n| depth_of(n)).max().unwrap_or(0);
@@ -572,6 +627,12 @@ fn check_jar(ctx: &Ctx, st: &mut Stats, fx: &Fixture, t: &[Entry], replay: &dyn 
 		}
 		if deepest >= 3 {
 			st.outcome("nest_jar:chain-depth>=4");
+		}
+		if deepest >= 4 {
+			st.outcome("nest_jar:chain-depth>=5");
+		}
+		if deepest >= 5 {
+			st.outcome("nest_jar:chain-depth>=6");
 		}
 		if !alt.created.is_empty() {
 			st.outcome("nest_jar:created-enclosing-class");
@@ -593,7 +654,7 @@ fn check_jar(ctx: &Ctx, st: &mut Stats, fx: &Fixture, t: &[Entry], replay: &dyn 
 
 /// One table: jar, mappings (plain target names), agreement.
 fn check_table(ctx: &Ctx, st: &mut Stats, fx: &Fixture, plain: &(MSet, Maps), t: &[Entry], with_mappings: bool) {
-	let replay = || format!("mode=table\n{}{}", fx.variant.map_or(String::new(), |v| format!("variant={v}\n")), table_text(t));
+	let replay = || format!("mode=table\nuniverse={}\norder={}\n{}{}", fx.uni.id, fx.order.map(|i| i.to_string()).join(","), fx.variant.map_or(String::new(), |v| format!("variant={v}\n")), table_text(t));
 	let jv = check_jar(ctx, st, fx, t, &replay);
 	if !with_mappings {
 		return;
@@ -603,9 +664,9 @@ fn check_table(ctx: &Ctx, st: &mut Stats, fx: &Fixture, plain: &(MSet, Maps), t:
 	if let (true, Some(j), Some(m)) = (jv.all_apply, &jv.names, &ms) {
 		let mut j = j.clone();
 		let mut m = m.clone();
-		j.remove(CLS[5]); // a created class the mappings have no row for
-		if !j.contains(CLS[4]) {
-			m.remove(CLS[4]); // a row for a class that is neither in the jar nor created
+		j.remove(fx.uni.cls[5]); // a created class the mappings have no row for
+		if !j.contains(fx.uni.cls[4]) {
+			m.remove(fx.uni.cls[4]); // a row for a class that is neither in the jar nor created
 		}
 		if j == m {
 			st.outcome("agree:tables");
@@ -620,15 +681,22 @@ fn check_table(ctx: &Ctx, st: &mut Stats, fx: &Fixture, plain: &(MSet, Maps), t:
 }
 
 /// One table against styled mappings: remap_nests, and apply/undo on them.
-fn check_styled(ctx: &Ctx, st: &mut Stats, t: &[Entry], styles: &[Style; 6], mr: MethodRow, with_apply: bool) {
-	let tg = targets(t, styles);
+fn check_styled(ctx: &Ctx, st: &mut Stats, u: &Uni, t: &[Entry], styles: &[Style; 6], mr: MethodRow, with_apply: bool) {
+	let tg = targets(u, t, styles);
 	if tg.iter().collect::<BTreeSet<_>>().len() != tg.len() {
 		st.outcome("styled:two-classes-with-one-target-name (skipped)");
 		return;
 	}
-	let set = mapping_set(&tg, None, mr);
-	let replay = || format!("mode=styled\nstyles={}\nmethodrow={mr:?}\n{}mappings:\n{}", styles.iter().map(|s| format!("{s:?}")).collect::<Vec<_>>().join(","), table_text(t), mapmodel::tiny::print(&set));
-	check_remap_nests(ctx, st, &set, t, &replay);
+	let set = mapping_set(u, &tg, None, mr);
+	let replay = || format!("mode=styled\nuniverse={}\nstyles={}\nmethodrow={mr:?}\n{}mappings:\n{}", u.id, styles.iter().map(|s| format!("{s:?}")).collect::<Vec<_>>().join(","), table_text(t), mapmodel::tiny::print(&set));
+	if check_remap_nests(ctx, st, &set, t, &replay) {
+		for e in t {
+			let i = u.idx_of(&e.class);
+			if i < 5 {
+				st.outcome(&format!("remap_nests:clean:target-style-of-the-nested-class:{:?}", styles[i]));
+			}
+		}
+	}
 	if with_apply {
 		check_mappings(ctx, st, &set, None, t, &replay);
 	}
@@ -681,18 +749,93 @@ fn sweep_tables_on(ctx: &'static Ctx, fx: &Fixture, plain: &(MSet, Maps), space:
 	st
 }
 
-fn style_vectors(t: &[Entry], encl_styles: &[Style]) -> Vec<[Style; 6]> {
-	// nested classes take every style; classes that only enclose take `encl_styles`; the others stay plain
-	let nested: Vec<usize> = t.iter().map(|e| idx_of(&e.class)).collect();
-	let mut encl: Vec<usize> = t.iter().map(|e| idx_of(&e.encl)).filter(|i| !nested.contains(i) && *i != 5).collect();
+/// A list of tables, each through `check_table`.
+fn sweep_list(ctx: &'static Ctx, fx: &Fixture, plain: &(MSet, Maps), tables: &[Vec<Entry>], with_mappings: bool, label: &str) -> Stats {
+	let chunk = 64usize;
+	let mut st = (0..tables.len().div_ceil(chunk)).into_par_iter().fold(Stats::new, |mut st, c| {
+		let lo = c * chunk;
+		let hi = (lo + chunk).min(tables.len());
+		vcore::watched(|| format!("{label}: tables {lo}..{hi} jar={:?}/{}", fx.variant, fx.uni.id), || {
+			for t in &tables[lo..hi] {
+				if has_cycle(t) {
+					st.outcome("space:cyclic-table-skipped");
+					continue;
+				}
+				st.outcome("space:tables");
+				check_table(ctx, &mut st, fx, plain, t, with_mappings);
+			}
+		});
+		st
+	}).reduce(Stats::new, Stats::merge);
+	st.outcome_n(&format!("{label}:index-space"), tables.len() as u64);
+	st
+}
+
+/// The spelling choices of the text form: every table is written with every radix assignment of the access flags,
+/// with `\n` and `\r\n` line ends, with and without a terminator on the last line. With `\n` the table read must
+/// be the table written; the statement says nothing about `\r\n`: the same table or a refusal are accepted, another
+/// table is a silently wrong answer.
+fn sweep_text_forms(ctx: &'static Ctx, tables: &[Vec<Entry>]) -> Stats {
+	let chunk = 256usize;
+	(0..tables.len().div_ceil(chunk)).into_par_iter().fold(Stats::new, |mut st, c| {
+		let lo = c * chunk;
+		let hi = (lo + chunk).min(tables.len());
+		vcore::watched(|| format!("text forms: tables {lo}..{hi}"), || {
+			for t in &tables[lo..hi] {
+				if t.is_empty() || !text_expressible(t) {
+					continue;
+				}
+				for shift in 0..4 {
+					for (eol, eol_name) in [("\n", "lf"), ("\r\n", "crlf")] {
+						for final_eol in [true, false] {
+							let text = render_text_as(t, shift, eol, final_eol);
+							let strict = eol_name == "lf" && !(0..t.len()).any(|i| (i + shift) % 4 == 3);
+							let replay = || format!("mode=text\ntext={}\n{}", vcore::hex(text.as_bytes()), table_text(t));
+							st.eval();
+							st.outcome("space:text-forms");
+							match vcore::guard(|| Nests::<Src>::read(&text.clone().into_bytes())) {
+								Err(p) => ctx.diff(&format!("read:panic@{}", p.file()), &format!("Nests::read panicked at {}: {} on {text:?}", p.site, p.msg), replay),
+								Ok(Err(e)) => {
+									if strict {
+										ctx.diff("read:refused-valid-table", &format!("Nests::read refuses {text:?}: {e:#}"), replay);
+									} else {
+										st.outcome("text:crlf-or-upper-case-hex-refused");
+									}
+								},
+								Ok(Ok(n)) => {
+									let got: Vec<Entry> = from_real(&n).into_iter().map(|(_, e)| e).collect();
+									if got == *t {
+										st.outcome(&format!("text:{eol_name}:{}:same-table", if final_eol { "terminated" } else { "last-line-unterminated" }));
+										if !strict && eol_name == "lf" {
+											st.outcome("text:upper-case-hex-digits:same-table");
+										}
+									} else {
+										let field = got.iter().zip(t).find(|(a, b)| a != b).map(|(a, b)| if a.ty != b.ty { "type" } else if a.method != b.method { "method" } else if a.flags != b.flags { "access" } else { "names" }).unwrap_or("count");
+										ctx.diff(&format!("read:{field}-wrong"), &format!("Nests::read of {text:?} gives {got:?}"), replay);
+									}
+								},
+							}
+						}
+					}
+				}
+			}
+		});
+		st
+	}).reduce(Stats::new, Stats::merge)
+}
+
+fn style_vectors(u: &Uni, t: &[Entry], nested_styles: &[Style], encl_styles: &[Style]) -> Vec<[Style; 6]> {
+	// nested classes take every style of `nested_styles`; classes that only enclose take `encl_styles`; the others stay plain
+	let nested: Vec<usize> = t.iter().map(|e| u.idx_of(&e.class)).collect();
+	let mut encl: Vec<usize> = t.iter().map(|e| u.idx_of(&e.encl)).filter(|i| !nested.contains(i) && *i != 5).collect();
 	encl.sort();
 	encl.dedup();
-	let mut dims: Vec<usize> = nested.iter().map(|i| if *i == 5 { 1 } else { STYLES.len() }).collect();
+	let mut dims: Vec<usize> = nested.iter().map(|i| if *i == 5 { 1 } else { nested_styles.len() }).collect();
 	dims.extend(encl.iter().map(|_| encl_styles.len()));
 	vcore::enumerate::Product::new(&dims).map(|v| {
 		let mut s = [Style::Plain; 6];
 		for (k, i) in nested.iter().enumerate() {
-			s[*i] = STYLES[v[k]];
+			s[*i] = nested_styles[v[k]];
 		}
 		for (k, i) in encl.iter().enumerate() {
 			s[*i] = encl_styles[v[nested.len() + k]];
@@ -701,7 +844,7 @@ fn style_vectors(t: &[Entry], encl_styles: &[Style]) -> Vec<[Style; 6]> {
 	}).collect()
 }
 
-fn sweep_styled(ctx: &'static Ctx, space: &TableSpace, encl_styles: &'static [Style], method_rows: &'static [MethodRow]) -> Stats {
+fn sweep_styled(ctx: &'static Ctx, space: &TableSpace, nested_styles: &'static [Style], encl_styles: &'static [Style], method_rows: &'static [MethodRow]) -> Stats {
 	let n = space.count();
 	let chunk = 64u64;
 	(0..n.div_ceil(chunk)).into_par_iter().fold(Stats::new, |mut st, c| {
@@ -713,10 +856,10 @@ fn sweep_styled(ctx: &'static Ctx, space: &TableSpace, encl_styles: &'static [St
 				if has_cycle(&t) {
 					continue;
 				}
-				for styles in style_vectors(&t, encl_styles) {
+				for styles in style_vectors(space.uni, &t, nested_styles, encl_styles) {
 					for (k, mr) in method_rows.iter().enumerate() {
 						st.outcome("space:styled-cases");
-						check_styled(ctx, &mut st, &t, &styles, *mr, k == 0);
+						check_styled(ctx, &mut st, space.uni, &t, &styles, *mr, k == 0);
 					}
 				}
 			}
@@ -728,18 +871,20 @@ fn sweep_styled(ctx: &'static Ctx, space: &TableSpace, encl_styles: &'static [St
 /// Rows without target name are outside the stated space: explored for information only.
 fn sweep_missing_targets(fx: &Fixture, space: &TableSpace) -> (Stats, BTreeSet<String>) {
 	let _ = fx;
+	let u = space.uni;
+	let idx_of = |c: &str| u.idx_of(c);
 	let mut st = Stats::new();
 	let mut sites = BTreeSet::new();
 	for idx in 0..space.count() {
 		let t = space.nth(idx);
-		let tg = targets(&t, &[Style::Plain; 6]);
+		let tg = targets(u, &t, &[Style::Plain; 6]);
 		let e = &t[0];
-		for (which, class) in [("nested-class-row", &e.class), ("enclosing-class-row", &e.encl), ("unrelated-row", &CLS[if idx_of(&e.class) == 0 || idx_of(&e.encl) == 0 { if idx_of(&e.class) == 1 || idx_of(&e.encl) == 1 { 2 } else { 1 } } else { 0 }].to_owned())] {
+		for (which, class) in [("nested-class-row", &e.class), ("enclosing-class-row", &e.encl), ("unrelated-row", &u.cls[if idx_of(&e.class) == 0 || idx_of(&e.encl) == 0 { if idx_of(&e.class) == 1 || idx_of(&e.encl) == 1 { 2 } else { 1 } } else { 0 }].to_owned())] {
 			let i = idx_of(class);
 			if i >= 5 {
 				continue;
 			}
-			let set = mapping_set(&tg, Some(i), MethodRow::Renamed);
+			let set = mapping_set(u, &tg, Some(i), MethodRow::Renamed);
 			let nests: Nests<Src> = to_real(&t);
 			st.eval();
 			let r = vcore::guard(|| dukenest::apply_nests_to_mappings(to_quill(&set), &nests).map(|_| ()).map_err(|e| format!("{e:#}")));
@@ -785,14 +930,14 @@ fn sweep_zip_and_noremap(ctx: &Ctx, fx: &Fixture, spaces: &[&TableSpace]) -> Sta
 			if has_cycle(&t) {
 				continue;
 			}
-			let replay = || format!("mode=zip\n{}", table_text(&t));
+			let replay = || format!("mode=zip\nuniverse={}\n{}", fx.uni.id, table_text(&t));
 			st.eval();
 			let mem = run_nest_jar(fx, to_real(&t), true);
 			st.eval();
 			let via_zip = vcore::guard(|| -> Result<Out, String> {
 				let j = dukenest::nest_jar(true, &zip, to_real::<Src>(&t)).map_err(|e| format!("{e:#}"))?;
 				let data = j.to_mem().map_err(|e| format!("writing the jar: {e:#}"))?.data;
-				jar::read_out_zip(&data)
+				jar::read_out_zip(fx.uni, &data)
 			});
 			match (mem, via_zip) {
 				(Ok(Ok(a)), Ok(Ok(b))) => {
@@ -817,7 +962,7 @@ fn sweep_zip_and_noremap(ctx: &Ctx, fx: &Fixture, spaces: &[&TableSpace]) -> Sta
 			}
 			st.eval();
 			match run_nest_jar(fx, to_real(&t), false) {
-				Err(p) => ctx.diff(&format!("nest_jar:panic@{}", p.file()), &format!("nest_jar(remap = false) panicked at {}: {}", p.site, p.msg), &|| format!("mode=noremap\n{}", table_text(&t))),
+				Err(p) => ctx.diff(&format!("nest_jar:panic@{}", p.file()), &format!("nest_jar(remap = false) panicked at {}: {}", p.site, p.msg), &|| format!("mode=noremap\nuniverse={}\n{}", fx.uni.id, table_text(&t))),
 				Ok(Err(_)) => st.outcome("info:remap=false:err"),
 				Ok(Ok(o)) => {
 					let renamed = o.classes.iter().any(|c| c.origin.as_ref().is_some_and(|n| *n != c.class.this_class.to_string_lossy()));
@@ -835,13 +980,13 @@ fn sweep_zip_and_noremap(ctx: &Ctx, fx: &Fixture, spaces: &[&TableSpace]) -> Sta
 /// a cycle is not a chain, so it is outside the stated space). Exits 0 if the call returns.
 fn cycle_child(which: &str) -> ! {
 	let fx = Fixture::new();
-	let t = vec![entry(1, 2, KINDS_FULL[0]), entry(2, 1, KINDS_FULL[0])];
+	let t = vec![entry(base(), 1, 2, KINDS_FULL[0]), entry(base(), 2, 1, KINDS_FULL[0])];
 	match which {
 		"jar" => {
 			let _ = dukenest::nest_jar(true, &fx.jar, to_real::<Src>(&t));
 		},
 		_ => {
-			let set = mapping_set(&targets(&[], &[Style::Plain; 6]), None, MethodRow::Renamed);
+			let set = mapping_set(base(), &targets(base(), &[], &[Style::Plain; 6]), None, MethodRow::Renamed);
 			let _ = dukenest::apply_nests_to_mappings(to_quill(&set), &to_real::<Src>(&t));
 		},
 	}
@@ -885,6 +1030,12 @@ fn repro() -> ! {
 	std::process::exit(0);
 }
 
+/// the jars and plain mapping sets of the universes other than the base one
+fn further_universes() -> &'static Vec<(Fixture, (MSet, Maps))> {
+	static KEEP: std::sync::OnceLock<Vec<(Fixture, (MSet, Maps))>> = std::sync::OnceLock::new();
+	KEEP.get_or_init(|| universes()[1..].iter().map(|u| (Fixture::build_in(u, None, [2, 0, 3, 1]), plain_mappings(u))).collect())
+}
+
 fn main() {
 	if let Ok(which) = std::env::var("C14_CYCLE_CHILD") {
 		cycle_child(&which);
@@ -896,11 +1047,9 @@ fn main() {
 	let quiet = Quiet::on();
 	QUIET_FD.store(quiet.0, std::sync::atomic::Ordering::SeqCst);
 	let fx = Fixture::new();
-	let plain_targets = targets(&[], &[Style::Plain; 6]);
-	let plain = mapping_set(&plain_targets, None, MethodRow::Renamed);
-	let plain = (plain.clone(), to_quill(&plain));
+	let plain = plain_mappings(base());
 	if let Some(path) = ctx.replay.clone() {
-		replay(ctx, &fx, &plain, &path, &quiet);
+		replay(ctx, &path, &quiet);
 	}
 	if std::env::var_os("C14_PROFILE").is_some() {
 		quiet.off();
@@ -916,7 +1065,7 @@ fn main() {
 			eprintln!("{name}: {} evaluations, at {:.1}s", st.evaluations, ctx.elapsed_s());
 			Quiet::on();
 		}
-		spaces.insert(name.to_owned(), json!({"evaluations": st.evaluations, "tables": st.get("space:tables") + st.get("space:tables-in-reverse-order") + st.get("space:styled-cases"), "cyclic_tables_skipped": st.get("space:cyclic-table-skipped")}));
+		spaces.insert(name.to_owned(), json!({"evaluations": st.evaluations, "tables": st.get("space:tables") + st.get("space:tables-in-reverse-order") + st.get("space:styled-cases") + st.get("space:text-forms"), "cyclic_tables_skipped": st.get("space:cyclic-table-skipped")}));
 		total = std::mem::take(&mut total).merge(st);
 	};
 
@@ -932,9 +1081,12 @@ fn main() {
 	let s4 = TableSpace::new(4, &KINDS_MINI[..3]);
 	run("tables-of-0", sweep_tables(ctx, &fx, &plain, &s0, Orders::Canonical, "s0"));
 	run(&format!("tables-of-1 ({} kinds)", KINDS_FULL.len()), sweep_tables(ctx, &fx, &plain, &s1, Orders::Canonical, "s1"));
-	let smoke = std::env::var_os("C14_SMOKE").is_some();
+	// development runs (not tiers; their floors are not all met): C14_SMOKE = tables of <= 1 entry only;
+	// C14_DEV=chains = the same plus the chain and shared-inner-name sweeps
+	let dev_chains = std::env::var("C14_DEV").is_ok_and(|v| v == "chains");
+	let smoke = std::env::var_os("C14_SMOKE").is_some() || dev_chains;
 	if smoke {
-		ctx.note("C14_SMOKE: development run over tables of <= 1 entry only (not a tier)".to_string());
+		ctx.note("C14_SMOKE / C14_DEV: development run over a part of the quick tier (not a tier)".to_string());
 	} else if quick {
 		run("tables-of-2 (12 kinds, both orders)", sweep_tables(ctx, &fx, &plain, &s2m, Orders::Both, "s2"));
 		run("tables-of-3 (4 kinds)", sweep_tables(ctx, &fx, &plain, &s3, Orders::Canonical, "s3"));
@@ -960,20 +1112,98 @@ fn main() {
 		}
 	}
 
+	// S1d: chains in every line order; one inner name for several classes; every access flag; the text form's spellings
+	if !smoke || dev_chains {
+		for n in 2..=ctx.tier.pick(4, 5) {
+			let tables = chain_tables(base(), n);
+			run(&format!("chains of {n} entries, every line order"), sweep_list(ctx, &fx, &plain, &tables, true, &format!("chain{n}")));
+		}
+		let sh2 = TableSpace::new(2, KINDS_SHARED);
+		run("tables-of-2 with shared inner names (4 kinds, both orders)", sweep_tables(ctx, &fx, &plain, &sh2, Orders::Both, "sh2"));
+		if !quick {
+			let sh3 = TableSpace::new(3, KINDS_SHARED);
+			run("tables-of-3 with shared inner names (4 kinds)", sweep_tables(ctx, &fx, &plain, &sh3, Orders::Canonical, "sh3"));
+		}
+	}
+	{
+		// every bit of the InnerClasses flag mask alone, all together, none
+		let mut tables = Vec::new();
+		for f in (0..16).map(|b| 1u16 << b).filter(|f| f & 0x761f != 0).chain([0x761f, 0]) {
+			for kind in &KINDS_MINI[..3] {
+				let mut e = entry(base(), 1, 0, *kind);
+				e.flags = f;
+				tables.push(vec![e]);
+			}
+		}
+		let st = sweep_list(ctx, &fx, &plain, &tables, false, "flags");
+		ctx.floor("access flags: tables whose nest was recorded with exactly the flags of the table", tables.len() as u64, st.get("nest_jar:ok-renamed"));
+		run("access flags: every bit of the mask (3 kinds)", st);
+		let mut texts: Vec<Vec<Entry>> = tables;
+		texts.extend((0..s1.count()).map(|i| s1.nth(i)));
+		if !smoke {
+			texts.extend((0..s2c.count()).map(|i| s2c.nth(i)).filter(|t| !has_cycle(t)));
+			texts.extend(chain_tables(base(), 3));
+		}
+		for (ufx, _) in further_universes() {
+			let us1 = TableSpace::of(ufx.uni, 1, KINDS_FULL);
+			texts.extend((0..us1.count()).map(|i| us1.nth(i)));
+		}
+		run("text forms (4 radix assignments x LF/CRLF x last line terminated or not)", sweep_text_forms(ctx, &texts));
+	}
+
+	// S1c: the further name universes (multi-byte characters, odd-but-legal names, equal simple names, default package,
+	// a class that already has its nested name): jar + mappings + agreement, variant jars, styled mappings
+	let further = further_universes();
+	for (ufx, uplain) in further {
+		let u = ufx.uni;
+		let us1 = TableSpace::of(u, 1, KINDS_FULL);
+		run(&format!("universe {}: tables-of-1 ({} kinds)", u.id, KINDS_FULL.len()), sweep_tables(ctx, ufx, uplain, &us1, Orders::Canonical, &format!("u1:{}", u.id)));
+		for v in 0..jar::VARIANTS {
+			let vf = Fixture::build_in(u, Some(v), [1, 3, 0, 2]);
+			run(&format!("universe {}: variant-jar-{v}: tables-of-1 ({} kinds)", u.id, KINDS_FULL.len()), sweep_tables_on(ctx, &vf, uplain, &us1, Orders::Canonical, "uv1", false));
+		}
+		if !smoke {
+			let us2 = TableSpace::of(u, 2, KINDS_NAMES);
+			let st = sweep_tables(ctx, ufx, uplain, &us2, if quick { Orders::Canonical } else { Orders::Both }, &format!("u2:{}", u.id));
+			ctx.floor(&format!("universe {}: two-entry tables where jar and mappings agree", u.id), 100, st.get("agree:tables"));
+			ctx.floor(&format!("universe {}: two-entry tables with a chain of depth >= 3", u.id), 1, st.get("nest_jar:chain-depth>=3"));
+			for ty in ["inner", "local", "anonymous"] {
+				ctx.floor(&format!("universe {}: applied {ty} nests", u.id), 100, st.get(&format!("nest_jar:applied:{ty}")));
+			}
+			run(&format!("universe {}: tables-of-2 ({} kinds{})", u.id, KINDS_NAMES.len(), if quick { "" } else { ", both orders" }), st);
+		}
+	}
+
 	// S2: remap_nests and apply/undo over styled target names
-	static ENCL_STYLES: [Style; 3] = [Style::Plain, Style::Calamus, Style::PreNestedOther];
+	static ENCL_STYLES: [Style; 5] = [Style::Plain, Style::Calamus, Style::PreNestedOther, Style::Identity, Style::NoPkg];
 	static ENCL_PLAIN: [Style; 1] = [Style::Plain];
 	static ALL_ROWS: [MethodRow; 3] = [MethodRow::Renamed, MethodRow::NoRow, MethodRow::SameName];
 	static ONE_ROW: [MethodRow; 1] = [MethodRow::Renamed];
-	run(&format!("styled-tables-of-1 ({} kinds)", KINDS_FULL.len()), sweep_styled(ctx, &s1, &ENCL_STYLES, &ALL_ROWS));
+	run(&format!("styled-tables-of-1 ({} kinds, 7 styles)", KINDS_FULL.len()), sweep_styled(ctx, &s1, &STYLES, &ENCL_STYLES, &ALL_ROWS));
 	if !smoke {
-		run(if quick { "styled-tables-of-2 (6 kinds)" } else { "styled-tables-of-2 (22 kinds)" }, sweep_styled(ctx, if quick { &s2c } else { &s2o }, &ENCL_PLAIN, &ONE_ROW));
+		run(if quick { "styled-tables-of-2 (6 kinds, 4 styles)" } else { "styled-tables-of-2 (22 kinds, 4 styles)" }, sweep_styled(ctx, if quick { &s2c } else { &s2o }, &STYLES[..STYLES_OLD], &ENCL_PLAIN, &ONE_ROW));
+	}
+	for (ufx, _) in further {
+		let u = ufx.uni;
+		let st = sweep_styled(ctx, &TableSpace::of(u, 1, KINDS_FULL), &STYLES, &ENCL_STYLES, &ALL_ROWS);
+		for shape in ["number", "number-calamus", "custom", "derived", "derived-local", "pre-nested", "derived-from-already-nested-name"] {
+			ctx.floor(&format!("universe {}: remap_nests: inner names of shape {shape}", u.id), 1, st.get(&format!("remap_nests:inner-name-shape:{shape}")));
+		}
+		ctx.floor(&format!("universe {}: remap_nests: nests with a renamed enclosing method", u.id), 1, st.get("remap_nests:enclosing-method-renamed"));
+		ctx.floor(&format!("universe {}: undo(apply(M)) restored after a renaming", u.id), 1000, st.get("undo:restored-after-renaming"));
+		run(&format!("universe {}: styled-tables-of-1 ({} kinds, 7 styles)", u.id, KINDS_FULL.len()), st);
 	}
 
 	// S3: information only
 	let (info, panic_sites) = sweep_missing_targets(&fx, &s1);
 	run("rows-without-target-name (information only)", info);
 	run("zip-archive-path and remap=false", sweep_zip_and_noremap(ctx, &fx, &[&s0, &s1]));
+	{
+		let (mfx, _) = &further[0];
+		let st = sweep_zip_and_noremap(ctx, mfx, &[&TableSpace::of(mfx.uni, 1, &KINDS_FULL[..CORE])]);
+		ctx.floor(&format!("universe {}: zip: tables with the same result through a real archive", mfx.uni.id), 100, st.get("zip:same-result-as-in-memory"));
+		run(&format!("universe {}: zip-archive-path and remap=false (6 kinds)", mfx.uni.id), st);
+	}
 	let mut cyc = Stats::new();
 	let cycle_notes = cycle_probe(&mut cyc);
 	run("cyclic-table probe (information only)", cyc);
@@ -990,6 +1220,22 @@ fn main() {
 	ctx.floor("nest_jar: tables with a chain of depth >= 3", 1, s.get("nest_jar:chain-depth>=3"));
 	ctx.floor("nest_jar: tables with a chain of depth >= 4", 1, s.get("nest_jar:chain-depth>=4"));
 	ctx.floor("nest_jar: tables with a created enclosing class", 1, s.get("nest_jar:created-enclosing-class"));
+	if !smoke {
+		ctx.floor("nest_jar: tables with a chain of depth >= 5", 1, s.get("nest_jar:chain-depth>=5"));
+		if !quick {
+			ctx.floor("nest_jar: tables with a chain of depth >= 6", 1, s.get("nest_jar:chain-depth>=6"));
+		}
+		ctx.floor("nest_jar: applied nests whose inner name another applied nest of the table has too", 100, s.get("nest_jar:applied:inner-name-shared-with-another-applied-nest"));
+	}
+	ctx.floor("nest_jar: applied nests of a class that already has the nested name (universe odd-a)", 1, s.get("nest_jar:applied-to-a-class-that-already-has-the-nested-name"));
+	ctx.floor("nest_jar: applied nests whose enclosing class has the simple name of the nested class (universe odd-b)", 1, s.get("nest_jar:applied:enclosing-class-with-the-simple-name-of-the-nested-class"));
+	ctx.floor("nest_jar: rejected local nests whose method only the namesake of the enclosing class declares (universe odd-b)", 1, s.get("nest_jar:rejected:local-whose-method-only-the-namesake-of-the-enclosing-class-declares"));
+	for style in STYLES {
+		ctx.floor(&format!("remap_nests: clean results with a nested class of target style {style:?}"), 100, s.get(&format!("remap_nests:clean:target-style-of-the-nested-class:{style:?}")));
+	}
+	for form in ["lf:terminated", "lf:last-line-unterminated"] {
+		ctx.floor(&format!("Nests::read: text forms {form} read to the table written"), 1000, s.get(&format!("text:{form}:same-table")));
+	}
 	ctx.floor("tables read through the text form", 1000, s.get("table:read-from-text"));
 	ctx.floor("apply: mapping sets with renamed classes judged clean", 1000, s.get("apply:ok-renamed"));
 	ctx.floor("apply: chains of depth >= 3", 1, s.get("apply:chain-depth>=3"));
@@ -1037,8 +1283,9 @@ fn main() {
 		"outcomes": s.outcomes,
 		"spaces": spaces,
 		"bounds": {
-			"classes_in_jar": &CLS[..N_PRESENT],
-			"classes_not_in_jar": &CLS[N_PRESENT..],
+			"classes_in_jar": &base().cls[..N_PRESENT],
+			"classes_not_in_jar": &base().cls[N_PRESENT..],
+			"universes": universes().iter().map(|u| json!({"id": u.id, "classes": u.cls})).collect::<Vec<_>>(),
 			"entry": "nested class (6) x enclosing class (the 5 others) x kind",
 			"kinds": KINDS_FULL.iter().map(|k| format!("{:?}/{:?}/{:?}", k.ty, k.meth, k.name)).collect::<Vec<_>>(),
 			"core_kinds": CORE,
@@ -1065,10 +1312,17 @@ fn main() {
 	]);
 }
 
-fn replay(ctx: &'static Ctx, fx: &Fixture, plain: &(MSet, Maps), path: &std::path::Path, quiet: &Quiet) -> ! {
+fn replay(ctx: &'static Ctx, path: &std::path::Path, quiet: &Quiet) -> ! {
 	let body = vcore::replay_body(path);
 	let t = parse_table_text(&body);
-	let mode = body.lines().find_map(|l| l.strip_prefix("mode=")).unwrap_or("table").to_owned();
+	let line = |key: &str| body.lines().find_map(|l| l.strip_prefix(key));
+	let mode = line("mode=").unwrap_or("table").to_owned();
+	let uni = universe(line("universe=").unwrap_or("base"));
+	let variant: Option<usize> = line("variant=").and_then(|v| v.parse().ok());
+	let order: Vec<usize> = line("order=").map(|o| o.split(',').filter_map(|x| x.parse().ok()).collect()).unwrap_or_default();
+	let order: [usize; 4] = order.try_into().unwrap_or([2, 0, 3, 1]);
+	let fx = &Fixture::build_in(uni, variant, order);
+	let plain = &plain_mappings(uni);
 	let mut outcomes = Vec::new();
 	for _ in 0..2 {
 		let mut st = Stats::new();
@@ -1078,6 +1332,9 @@ fn replay(ctx: &'static Ctx, fx: &Fixture, plain: &(MSet, Maps), path: &std::pat
 					"Calamus" => Style::Calamus,
 					"PreNested" => Style::PreNested,
 					"PreNestedOther" => Style::PreNestedOther,
+					"Identity" => Style::Identity,
+					"NoPkg" => Style::NoPkg,
+					"CalamusNoPkg" => Style::CalamusNoPkg,
 					_ => Style::Plain,
 				}).collect();
 				let styles: [Style; 6] = std::array::from_fn(|i| styles.get(i).copied().unwrap_or(Style::Plain));
@@ -1086,7 +1343,12 @@ fn replay(ctx: &'static Ctx, fx: &Fixture, plain: &(MSet, Maps), path: &std::pat
 					Some("SameName") => MethodRow::SameName,
 					_ => MethodRow::Renamed,
 				};
-				check_styled(ctx, &mut st, &t, &styles, mr, true);
+				check_styled(ctx, &mut st, uni, &t, &styles, mr, true);
+			},
+			"text" => {
+				let text = line("text=").and_then(vcore::unhex).unwrap_or_default();
+				let r = vcore::guard(|| Nests::<Src>::read(&text).map(|n| from_real(&n)).map_err(|e| format!("{e:#}")));
+				println!("Nests::read of {:?}: {:?}", String::from_utf8_lossy(&text), r.map_err(|p| format!("panic at {}: {}", p.site, p.msg)));
 			},
 			"zip" | "noremap" => {
 				let space = TableSpace::new(0, KINDS_FULL);
@@ -1121,7 +1383,7 @@ fn profile(fx: &Fixture, plain: &(MSet, Maps)) -> ! {
 	let mut outs = Vec::new();
 	for t in &tables {
 		if let Ok(j) = dukenest::nest_jar(true, &fx.jar, to_real::<Src>(t)) {
-			outs.push(jar::read_out(&j));
+			outs.push(jar::read_out(fx.uni, &j));
 		} else {
 			outs.push(Out::default());
 		}
